@@ -365,6 +365,8 @@ class Engine:
             self.path_log = []
             self.ghost = {}
             reset_names()
+            from . import values as _V
+            _V._PROVER[0] = self._prove_quick
             self.stats['paths'] += 1
             self.path_id += 1
             _CUR[0] = self
@@ -372,6 +374,29 @@ class Engine:
                 body()
             except PathEnd:
                 pass
+
+    def _prove_quick(self, cond):
+        """Used by the term simplifier: does the current path condition imply `cond`? (arithmetic side conditions)"""
+        key = cond.get_id()
+        cache = self.ghost.setdefault('__prove_cache__', {})
+        # a cached True stays valid (the path condition only grows); a cached False is retried
+        if cache.get(key):
+            return True
+        self.solver.push()
+        self.solver.set('timeout', 2000)
+        try:
+            self.solver.add(z3.Not(cond))
+            t0 = time.time()
+            r = self.solver.check()
+            self.stats['solver_calls'] += 1
+            self.stats['solver_time'] += time.time() - t0
+        finally:
+            self.solver.pop()
+            self.solver.set('timeout', self.timeout_ms)
+        if r == z3.unsat:
+            cache[key] = True
+            return True
+        return False
 
     def _check_sat(self, *assumptions):
         t0 = time.time()
